@@ -12,6 +12,8 @@ import (
 	"strconv"
 	"strings"
 
+	"golang.org/x/tools/go/ssa"
+
 	"verif/internal/core"
 )
 
@@ -122,4 +124,126 @@ func checkSeedEffective(c *core.Ctx) {
 		}
 	}
 	st.Sample("%d files mention Seed(; go.mod: %s; seed effective: %v", parsed, why, effective)
+}
+
+// R05.7: the application continues only when the simulation goroutine is quiescent.
+//
+// The engine runs on its own goroutine (Driver.runEngine holds Driver.engineMutex for
+// the whole of Engine.Run). The application is released from DrainCommandQueue from
+// inside Driver.Tick, as soon as the queue is empty - while the engine still has the
+// events behind that tick to process. The next API call schedules the driver's tick
+// "one cycle after now", and now is wherever the engine goroutine got to: 0, 1 or 2
+// cycles. A quiescence wait is an acquisition of Driver.engineMutex (directly or in a
+// driver function called on the way).
+func checkQuiescence(c *core.Ctx, pdrv *PkgInfo) {
+	st := c.Rule("R05.7", "the application thread resumes only when the simulation goroutine is quiescent: (a) every return of a driver function that woke the simulation goroutine (a send on Driver.enqueueSignal) is reached through an acquisition of Driver.engineMutex, the mutex runEngine holds for the whole of Engine.Run (directly or inside a driver function called on that path); (b) samples/runner.Runner.Run reads the engine (report, CurrentTime) only after such a wait. Otherwise the time of the next command, the reported total time and every counter sampled at report time depend on how far the engine goroutine got on the host", 2)
+	waits := map[*ssa.Function]bool{}
+	isDirectWait := func(in ssa.Instruction) bool {
+		cc := core.CallOf(in)
+		if cc == nil || cc.IsInvoke() {
+			return false
+		}
+		cal := cc.StaticCallee()
+		if cal == nil || cal.Name() != "Lock" || len(cc.Args) == 0 {
+			return false
+		}
+		f := core.LoadedField(cc.Args[0])
+		if f == nil {
+			if fa, ok := cc.Args[0].(*ssa.FieldAddr); ok {
+				return fieldNameOf(fa) == "engineMutex"
+			}
+			return false
+		}
+		return core.ShortFieldID(f) == "Driver.engineMutex"
+	}
+	// driver functions that wait (fixpoint over static calls)
+	for changed := true; changed; {
+		changed = false
+		for _, fn := range pdrv.Funcs {
+			if waits[fn] || fn.Name() == "runEngine" {
+				continue
+			}
+			for _, b := range fn.Blocks {
+				for _, in := range b.Instrs {
+					if isDirectWait(in) {
+						waits[fn] = true
+					} else if cc := core.CallOf(in); cc != nil && cc.StaticCallee() != nil && waits[cc.StaticCallee()] {
+						waits[fn] = true
+					}
+				}
+			}
+			if waits[fn] {
+				changed = true
+			}
+		}
+	}
+	isWait := func(n *core.Node) bool {
+		if isDirectWait(n.Instr) {
+			return true
+		}
+		if cc := core.CallOf(n.Instr); cc != nil && cc.StaticCallee() != nil && waits[cc.StaticCallee()] {
+			return true
+		}
+		return false
+	}
+	// (a)
+	pdrv.Instrs(func(fn *ssa.Function, in ssa.Instruction) {
+		snd, ok := in.(*ssa.Send)
+		if !ok {
+			return
+		}
+		f := core.LoadedField(snd.Chan)
+		if f == nil || core.ShortFieldID(f) != "Driver.enqueueSignal" {
+			return
+		}
+		st.Instances++
+		c.MarkAnalysed(fn)
+		g := core.BuildGraph(fn, 0, nil)
+		bad := false
+		for _, sn := range g.NodesWhere(func(n *core.Node) bool { return n.Instr == in }) {
+			g.Walk(core.After(sn, nil), core.WalkOpts{Stop: isWait}, func(s core.State) {
+				if _, isR := s.N.Instr.(*ssa.Return); isR {
+					bad = true
+				}
+			})
+		}
+		st.Ob(!bad)
+		if bad {
+			c.ReportAt("R05.7", fn, in.Pos(), "resume-before-quiescent", core.FuncName(fn)+" wakes the simulation goroutine and returns to the application as soon as the queue is empty, without waiting for that goroutine to finish the events behind the releasing tick: six runs of 1500 MemCopyH2D calls gave three different end times (the next command starts 0, 1 or 2 cycles after the previous one completed), and a drain of an idle queue races with the engine it just started")
+		}
+	})
+	// (b)
+	const runnerPkg = "amd/samples/runner"
+	if run := c.SSAFunc(runnerPkg, "Runner.Run"); run != nil {
+		st.Instances++
+		c.MarkAnalysed(run)
+		g := core.BuildGraph(run, 0, nil)
+		isRunnerWait := func(n *core.Node) bool {
+			cc := core.CallOf(n.Instr)
+			return cc != nil && cc.StaticCallee() != nil && waits[cc.StaticCallee()]
+		}
+		bad := false
+		for _, rn := range g.NodesWhere(func(n *core.Node) bool {
+			cc := core.CallOf(n.Instr)
+			if cc == nil || cc.StaticCallee() == nil {
+				return false
+			}
+			nm := cc.StaticCallee().Name()
+			return nm == "report" || nm == "CurrentTime"
+		}) {
+			if !g.Guarded(rn, func(n *core.Node, i int) bool { return false }) {
+				// reachable: is there a path from entry that avoids every wait?
+				reach, _ := g.Reach([]core.State{{N: g.Entry}}, core.WalkOpts{Stop: isRunnerWait})
+				if reach[rn] {
+					bad = true
+				}
+			}
+		}
+		st.Ob(!bad)
+		if bad {
+			c.ReportAt("R05.7", run, run.Pos(), "report-before-quiescent", "Runner.Run reports (and lets its caller read Engine().CurrentTime()) right after the benchmarks returned, while the engine goroutine may still be processing the events behind the last command: with the engine stalled after the last command CurrentTime() at return is 2.199 us instead of 2.200 us and 8 of 90 metric rows of fir differ")
+		}
+	} else if c.Pkg(runnerPkg) != nil {
+		c.Report(core.Finding{Rule: "R05.7", Kind: "anchor", Pkg: runnerPkg, Func: "Runner.Run", Detail: "anchor", Msg: "Runner.Run not found"})
+	}
 }
